@@ -73,6 +73,7 @@ class Program:
             self.impls.extend(c.get("impls", []))
             self.foreign.update(c.get("foreign_fns", []))
         self._callers = None
+        self._ret_const = {}
 
     def fn(self, path):
         return self.fns.get(path)
@@ -101,6 +102,28 @@ class Program:
             if v.get("discr") == discr:
                 return v["name"]
         return None
+
+    def ret_const(self, path, depth=0):
+        """(adt, variant) when every assignment to the return place of the local function `path`
+        is the same field-less enum constant (e.g. reset_keep always returns ReturnCode::Ok)"""
+        if path in self._ret_const:
+            return self._ret_const[path]
+        self._ret_const[path] = None
+        f = self.fns.get(path)
+        if f is None:
+            return None
+        vals = set()
+        for bi, si, rv in f.defs.get(0, []):
+            if rv is None:
+                return None
+            e = f.call_expr(rv) if si == "call" else f.rvalue_expr(rv)
+            v = f.enum_const(e, depth)
+            if v is None:
+                return None
+            vals.add(v)
+        r = vals.pop() if len(vals) == 1 else None
+        self._ret_const[path] = r
+        return r
 
     # ---- call graph --------------------------------------------------------------------------
     def callees(self, fn):
@@ -182,9 +205,28 @@ class Fn:
         self._expr_cache = {}
         self._dom = None
         self._live = None
+        self.is_promoted = False
+        self._promoted = {}
 
     def __repr__(self):
         return "<Fn %s>" % self.path
+
+    def promoted_expr(self, n):
+        """expression of the value of promoted constant n of this function"""
+        if n in self._promoted:
+            return self._promoted[n]
+        self._promoted[n] = None
+        proms = self.j.get("promoted", [])
+        if n >= len(proms):
+            return None
+        pj = dict(path=self.raw_path, mir=proms[n])
+        pf = Fn(self.prog, pj, self.crate)
+        pf.is_promoted = True
+        e = pf.local_expr(0)
+        if any(x[0] in ("v", "p") for x in walk(e)):
+            e = None
+        self._promoted[n] = e
+        return e
 
     @property
     def is_extern_c(self):
@@ -214,16 +256,16 @@ class Fn:
                         lhs = s["lhs"]
                         if "p" not in lhs:
                             d[lhs["l"]].append((bi, si, s["rv"]))
-                        else:
+                        elif lhs["p"][0] != "*":
                             d[lhs["l"]].append((bi, si, None))  # partial write: makes it opaque
-                    elif s["k"] == "setdiscr":
+                    elif s["k"] == "setdiscr" and s["lhs"].get("p", [None])[0] != "*":
                         d[s["lhs"]["l"]].append((bi, si, None))
                 t = b["t"]
                 if t["k"] == "call":
                     dest = t["dest"]
                     if "p" not in dest:
                         d[dest["l"]].append((bi, "call", t))
-                    else:
+                    elif dest["p"][0] != "*":
                         d[dest["l"]].append((bi, "call", None))
             self._defs = d
         return self._defs
@@ -292,6 +334,10 @@ class Fn:
         if k == "const":
             if "fn" in op:
                 return ("fn", strip_generics(op.get("resolved") or op["fn"]))
+            if "promoted" in op and strip_generics(op.get("def", "")) == self.path and not self.is_promoted:
+                pe = self.promoted_expr(op["promoted"])
+                if pe is not None:
+                    return pe
             val = op.get("val")
             if val is None and "runtime_check" in op:
                 val = 0
@@ -350,9 +396,27 @@ class Fn:
         out.append((("else", tuple(vals)), t["otherwise"]))
         return out
 
+    def enum_const(self, e, depth=0):
+        """(adt, variant) if the expression is a field-less enum constant, directly or as the
+        constant return value of a local function"""
+        e = deref_ref(e)
+        if e[0] == "agg" and e[2] is not None and not e[3]:
+            return (e[1], e[2])
+        if e[0] == "call" and isinstance(e[1], str) and depth < 4:
+            return self.prog.ret_const(e[1], depth + 1)
+        return None
+
     def const_of(self, e):
         """evaluate an expression to an int constant if it is one"""
         e = strip_casts(e)
+        if e[0] == "call" and isinstance(e[1], str) and len(e[2]) == 2:
+            m = re.search(r"cmp::PartialEq(?:<[^>]*>)?>?::(eq|ne)$", e[1])
+            if m:
+                a = self.enum_const(e[2][0])
+                b = self.enum_const(e[2][1])
+                if a is not None and b is not None:
+                    r = (a == b)
+                    return int(r if m.group(1) == "eq" else not r)
         if e[0] == "c" and isinstance(e[1], int):
             return e[1]
         if e[0] == "un" and e[1] == "Not":
